@@ -29,6 +29,10 @@ pub enum Answer {
     /// the operation being offered are off the stacks by then; the host may not use their addresses afterwards
     /// and the scripted host does not. Skipped when the host's `compacts_in_callbacks` is off (twin worlds).
     Compact(Box<Answer>),
+    /// the host re-enters the runtime inside the callback: it pushes two operands of its own (a symbol and a
+    /// number), runs `ops::add` on them through the public runtime entry point - an undefined combination, which
+    /// the runtime must offer to the host again (that nested offer is declined) -, drops the result and then answers
+    Reenter(Box<Answer>),
 }
 
 impl Answer {
@@ -40,6 +44,7 @@ impl Answer {
             Answer::Fail => "fail",
             Answer::Churn(_, _) => "churn",
             Answer::Compact(_) => "compact-in-callback",
+            Answer::Reenter(_) => "reenter-in-callback",
             Answer::LieNoPush => "lie-nopush",
             Answer::LiePushTwo => "lie-pushtwo",
         }
@@ -121,6 +126,9 @@ pub struct Host {
     pub fired_lie: usize,
     pub fired_accept: usize,
     pub fired_compact_in_callback: usize,
+    pub fired_reenter: usize,
+    /// > 0 while the host is inside a callback that re-entered the runtime: offers made meanwhile are declined
+    pub nesting: usize,
     /// twin worlds (the "nothing happened" reference) turn this off: `Answer::Compact` then only answers
     pub compacts_in_callbacks: bool,
     /// when false the host records nothing and declines everything (cheap no-op mode)
@@ -142,7 +150,7 @@ impl PartialOrd for Host {
 
 impl Host {
     pub fn new(script: HostScript) -> Self {
-        Host { script, log: vec![], calls: 0, unique: 0, log_cap: 4000, overflow: false, fired_fail: 0, fired_decline: 0, fired_churn: 0, fired_lie: 0, fired_accept: 0, fired_compact_in_callback: 0, compacts_in_callbacks: true, recording: true }
+        Host { script, log: vec![], calls: 0, unique: 0, log_cap: 4000, overflow: false, fired_fail: 0, fired_decline: 0, fired_churn: 0, fired_lie: 0, fired_accept: 0, fired_compact_in_callback: 0, fired_reenter: 0, nesting: 0, compacts_in_callbacks: true, recording: true }
     }
 
     pub fn reset_run(&mut self) {
@@ -228,6 +236,25 @@ fn perform<D: GD + HasHost>(data: &mut D, answer: &Answer) -> Result<(bool, Opti
             }
             perform(data, then)
         }
+        Answer::Reenter(then) => {
+            {
+                let h = data.host_mut();
+                h.fired_reenter += 1;
+                h.nesting += 1;
+            }
+            let inner = (|| -> Result<(), DataError> {
+                let s = data.add_symbol(0x5EED_CAFE)?;
+                let n = data.add_number(garnish_lang_simple_data::SimpleNumber::Integer(3))?;
+                data.push_register(s)?;
+                data.push_register(n)?;
+                garnish_lang_runtime::ops::add(data).map_err(|e| DataError::from(format!("nested operation of the host failed: {:?}", e)))?;
+                data.pop_register()?;
+                Ok(())
+            })();
+            data.host_mut().nesting -= 1;
+            inner?;
+            perform(data, then)
+        }
         Answer::LieNoPush => {
             data.host_mut().fired_lie += 1;
             Ok((true, None))
@@ -305,9 +332,13 @@ pub fn host_defer<D: GD + HasHost>(data: &mut D, op: Instruction, left: (Garnish
         let h = data.host_mut();
         let k = h.calls;
         h.calls += 1;
-        match h.script.nth_override.get(&k) {
-            Some(a) => a.clone(),
-            None => h.script.defer_default.clone().unwrap_or(Answer::Decline),
+        if h.nesting > 0 {
+            Answer::Decline
+        } else {
+            match h.script.nth_override.get(&k) {
+                Some(a) => a.clone(),
+                None => h.script.defer_default.clone().unwrap_or(Answer::Decline),
+            }
         }
     };
     let r = perform(data, &answer);
